@@ -1,5 +1,6 @@
 import Abverif.Model.Basic
 import Abverif.Model.Xor
+import Abverif.Model.WsHeader
 /-
 The WebSocket engine model shared by C01, C02, C05, C16, C17.
 
@@ -446,8 +447,11 @@ def onFrameData (s : S) (h : Hdr) (payload : Bytes) : S × Bool :=
     let (s, go) :=
       if s.utf8On && !s.msgCompressed then
         let u := u8run s.utf8 payload
-        let s := { s with utf8 := u, utf8Ok := u ≠ .rej, utf8Ends := u = .s0 }
-        if u = .rej then
+        -- `Utf8Validator.validate` only reports a reject met inside its own loop: an empty chunk is "valid"
+        -- even when the validator already sits in the reject state
+        let bad := u = .rej && !payload.isEmpty
+        let s := { s with utf8 := u, utf8Ok := !bad, utf8Ends := u = .s0 }
+        if bad then
           let (s, stop) := violation s 1007
           (s, !stop)
         else (s, true)
@@ -505,29 +509,12 @@ def onFrameEnd (s : S) (h : Hdr) : S × Bool :=
         ({ s with messageData := [], insideMessage := false, cur := none }, true)
     else ({ s with cur := none }, true)
 
-/-- the rules applied to the first two header octets, in the order of `processData`;
+/-- the rules applied to the first two header octets, in the order of `processData` (see Model/WsHeader.lean);
 each yields a 1002 violation.  Returns the list of violated rules (in order). -/
-inductive HV
-  | rsv | unmasked | masked | ctlFragmented | ctlTooLong | ctlReserved | closeLen1 | ctlCompressed
-  | dataReserved | contOutside | nonContInside | contCompressed
-deriving DecidableEq, Repr
-
 def headerViolations (cfg : Cfg) (insideMessage : Bool) (fin : Bool) (rsv opcode : Nat) (masked : Bool)
     (len7 : Nat) : List HV :=
-  (if rsv ≠ 0 && !(cfg.pmce && rsv = 4) then [HV.rsv] else []) ++
-  (if cfg.isServer && cfg.requireMasked && !masked then [HV.unmasked] else []) ++
-  (if !cfg.isServer && !cfg.acceptMasked && masked then [HV.masked] else []) ++
-  (if opcode > 7 then
-    (if !fin then [HV.ctlFragmented] else []) ++
-    (if len7 > 125 then [HV.ctlTooLong] else []) ++
-    (if !(opcode = 8 || opcode = 9 || opcode = 10) then [HV.ctlReserved] else []) ++
-    (if opcode = 8 && len7 = 1 then [HV.closeLen1] else []) ++
-    (if cfg.pmce && rsv = 4 then [HV.ctlCompressed] else [])
-   else
-    (if !(opcode = 0 || opcode = 1 || opcode = 2) then [HV.dataReserved] else []) ++
-    (if !insideMessage && opcode = 0 then [HV.contOutside] else []) ++
-    (if insideMessage && opcode ≠ 0 then [HV.nonContInside] else []) ++
-    (if cfg.pmce && rsv = 4 && insideMessage then [HV.contCompressed] else []))
+  hvFlags cfg.isServer cfg.requireMasked cfg.acceptMasked cfg.pmce insideMessage fin rsv opcode masked
+    (decide (len7 > 125)) (decide (len7 = 1))
 
 /-- apply a list of violations the way the cascade does: each calls `_protocol_violation`; the first one that
 returns `True` (failByDrop) stops everything -/
